@@ -342,7 +342,11 @@ func evalDeser(c *hx.Ctx, in *input, emit bool) *result {
 		c.Count(fmt.Sprintf("accepted-sigs:%d", len(tx.Sigs)))
 		oracleAccepted(c, in, tx, consumed, eo, res)
 		if in.Kind == "big" {
-			out = fmt.Sprintf("(OAccepted %d)", res.hpre)
+			hp := res.hpre
+			if hp < 0 {
+				hp = 0
+			}
+			out = fmt.Sprintf("(OAccepted %d)", hp)
 		} else {
 			var sg []string
 			for _, s := range tx.Sigs {
